@@ -37,7 +37,8 @@ ASSUMPTIONS = [
     "Simulator is only used on deterministic X/measure circuits; with 0 repetitions only key set and repetitions "
     "are checked",
 ]
-MIN_EVAL = {"records==model": 200, "measurements==model": 100, "data==model": 50, "histogram==model": 100,
+PACKAGES = ["cirq_google"]
+MIN_EVAL = {"engine-result-json": 30, "processor-call-args": 30, "validator-called": 20, "records==model": 200, "measurements==model": 100, "data==model": 50, "histogram==model": 100,
             "multi_histogram==model": 50, "add==model-concat": 50, "json-roundtrip": 50, "digits==model": 200,
             "sampler-order+shape": 100, "invariant:cached-views==model": 500}
 MUST_REACH = [
@@ -52,6 +53,12 @@ MUST_REACH = [
     "cirq/work/sampler.py:Sampler.sample", "cirq/work/sampler.py:Sampler.run",
     "cirq/work/sampler.py:Sampler._normalize_batch_args", "cirq/work/zeros_sampler.py:ZerosSampler.run_sweep",
     "cirq/sim/simulator.py:SimulatesSamples.run_sweep_iter",
+    "cirq_google/engine/engine_result.py:EngineResult.from_result", "cirq_google/engine/engine_result.py:EngineResult.__eq__",
+    "cirq_google/engine/engine_result.py:EngineResult._from_json_dict_",
+    "cirq_google/engine/processor_sampler.py:ProcessorSampler.run_batch_async",
+    "cirq_google/engine/processor_sampler.py:ProcessorSampler._run_sweep_async",
+    "cirq_google/engine/validating_sampler.py:ValidatingSampler.run_batch_async",
+    "cirq_google/engine/validating_sampler.py:ValidatingSampler.run_sweep",
 ]
 
 # Marginal probe (ndarray as `base` together with digit_count): in the annotated domain (Iterable[int]) but
@@ -1125,8 +1132,8 @@ def _gen_sweep(rng, allow_multi=True):
     """Abstract sweep -> (cirq sweepable, [param dict per resolver in the documented order], description)."""
     import cirq
 
-    kind = str(rng.choice(["none", "dict", "resolver", "points", "product", "zip", "dicts", "sweeps"]))
-    if kind == "sweeps" and not allow_multi:
+    kind = str(rng.choice(["none", "dict", "resolver", "points", "product", "zip", "dicts", "sweeps", "mixed-order"]))
+    if kind in ("sweeps", "mixed-order") and not allow_multi:
         kind = "product"
     avals = [int(x) for x in rng.choice(np.arange(1, 16), size=int(rng.integers(1, 5)), replace=False)]
     bvals = [int(x) for x in rng.choice(np.arange(0, 16), size=int(rng.integers(1, 4)), replace=False)]
@@ -1139,15 +1146,41 @@ def _gen_sweep(rng, allow_multi=True):
     if kind == "points":
         return cirq.Points("a", avals), [{"a": v} for v in avals], kind
     if kind == "product":  # the first factor is the outer loop
+        if rng.random() < 0.3:
+            sw = cirq.Points("b", bvals) * cirq.Points("a", avals)
+            return sw, [{"a": x, "b": y} for y in bvals for x in avals], kind + "-ba"
         sw = cirq.Points("a", avals) * cirq.Points("b", bvals)
         return sw, [{"a": x, "b": y} for x in avals for y in bvals], kind
     if kind == "zip":
         n = min(len(avals), len(bvals))
-        sw = cirq.Zip(cirq.Points("a", avals[:n]), cirq.Points("b", bvals[:n]))
+        fa, fb = cirq.Points("a", avals[:n]), cirq.Points("b", bvals[:n])
+        sw = cirq.Zip(fb, fa) if rng.random() < 0.3 else cirq.Zip(fa, fb)
         return sw, [{"a": x, "b": y} for x, y in zip(avals[:n], bvals[:n])], kind
     if kind == "dicts":
         ds = [{"a": x, "b": bvals[i % len(bvals)]} for i, x in enumerate(avals)]
-        return [dict(d) for d in ds], ds, kind
+        # the spelling order of a dict's keys carries no meaning
+        return [({"b": d["b"], "a": d["a"]} if rng.random() < 0.4 else dict(d)) for d in ds], ds, kind
+    if kind == "mixed-order":
+        # several sweeps over the same two symbols, each spelling them in its own order
+        n = min(len(avals), len(bvals))
+        parts, pds = [], []
+        for _ in range(int(rng.integers(2, 4))):
+            xs = [int(x) for x in rng.choice(np.arange(1, 16), size=n, replace=False)]
+            ys = [int(x) for x in rng.choice(np.arange(0, 16), size=n, replace=False)]
+            fa, fb = cirq.Points("a", xs), cirq.Points("b", ys)
+            form = int(rng.integers(4))
+            if form == 0:
+                parts.append(cirq.Zip(fa, fb))
+            elif form == 1:
+                parts.append(cirq.Zip(fb, fa))
+            elif form == 2:
+                parts.append({"b": ys[0], "a": xs[0]})
+                xs, ys = xs[:1], ys[:1]
+            else:
+                parts.append({"a": xs[0], "b": ys[0]})
+                xs, ys = xs[:1], ys[:1]
+            pds += [{"a": x, "b": y} for x, y in zip(xs, ys)]
+        return parts, pds, kind
     first = cirq.Points("a", avals)
     more = [int(x) for x in rng.choice(np.arange(1, 16), size=2, replace=False)]
     return [first, cirq.Points("a", more)], [{"a": v} for v in avals + more], kind
@@ -1616,6 +1649,238 @@ def sec_extras(ctx, rng, case):
         ctx.distinct(("store", repr(sorted(log.items()))), nontrivial=True)
 
 
+# =========================================================================== section: cirq_google result / sampler wrappers
+def _make_engine_fakes():
+    import cirq
+    import cirq_google
+    import duet
+    from collections.abc import Mapping
+
+    class FakeJob:
+        def __init__(self, results, delay):
+            self._results, self._delay = results, delay
+
+        async def results_async(self):
+            if self._delay is not None:
+                await self._delay
+            return self._results
+
+    class FakeProcessor:
+        """Stands in for an AbstractProcessor: answers exactly like the documented engine (results grouped by program,
+        then by sweep point), tags every result with the run it belongs to, and logs every call."""
+
+        def __init__(self, book):
+            self.book, self.calls, self.waiting, self.expect, self.perm = book, [], [], 0, []
+
+        async def run_sweep_async(self, program, params, repetitions=1, **kw):
+            if isinstance(program, Mapping):
+                progs, form = list(program.values()), "mapping"
+            elif isinstance(program, (list, tuple)):
+                progs, form = list(program), "list"
+            else:
+                progs, form = [program], "single"
+            cids = [self.book.cid_of(p_) for p_ in progs]
+            self.calls.append(dict(cids=cids, form=form, repetitions=repetitions, kw=kw,
+                                   keys=list(program.keys()) if form == "mapping" else None))
+            out = []
+            for cid in cids:
+                for pr in cirq.to_resolvers(params):
+                    pd = {str(k): v for k, v in pr.param_dict.items()}
+                    m = fake_model(cid, self.book.specs[cid], _code_of(pd), pd, repetitions)
+                    base = cirq.ResultDict(params=pr, records={
+                        k: np.array(m.recs[k], dtype=np.uint8).reshape(m.record_shape(k)) for k in m.keys})
+                    out.append(cirq_google.EngineResult.from_result(base, job_id="job-%d" % len(self.calls)))
+            delay = None
+            if self.expect:
+                delay = duet.AwaitableFuture()
+                self.waiting.append(delay)
+                if len(self.waiting) >= self.expect:
+                    w_, self.waiting = self.waiting, []
+                    for i in (self.perm if len(self.perm) == len(w_) else range(len(w_))):
+                        w_[i].set_result(None)
+            return FakeJob(out, delay)
+
+    return FakeProcessor
+
+
+class _PlainResult:
+    pass
+
+
+def sec_engine(ctx, rng, case):
+    import cirq
+    import cirq_google
+    import duet
+
+    if "engine_fakes" not in _S:
+        _S["engine_fakes"] = _make_engine_fakes()
+    if "fakes" not in _S:
+        _S["fakes"] = _make_fakes()
+    FakeProcessor = _S["engine_fakes"]
+    kind = str(rng.choice(["engine-result", "processor-batch", "processor-single", "validating"], p=[0.35, 0.35, 0.1, 0.2]))
+    w = dict(kind=kind)
+    if kind == "engine-result":
+        m = gen_model(rng)
+        arrays = build_arrays(rng, m)
+        job = str(rng.choice(["j", "job-1", "", "projects/p/programs/x/jobs/y"]))
+        how = int(rng.integers(3))
+        pr = cirq.ParamResolver(dict(m.params))
+        if how == 0:
+            r = cirq_google.EngineResult(job_id=job, params=pr, records=arrays)
+        elif how == 1:
+            r = cirq_google.EngineResult.from_result(cirq.ResultDict(params=pr, records=arrays), job_id=job)
+        else:
+            # a Result that is not a ResultDict: from_result must go through the public views
+            base = cirq.ResultDict(params=pr, records=arrays)
+
+            class Other(cirq.Result):
+                params = property(lambda self: base.params)
+                records = property(lambda self: base.records)
+                measurements = property(lambda self: base.measurements)
+                data = property(lambda self: base.data)
+            if not m.flattenable():
+                how = 1
+                r = cirq_google.EngineResult.from_result(base, job_id=job)
+            else:
+                r = cirq_google.EngineResult.from_result(Other(), job_id=job)
+        w.update(how=how, **_wit(m))
+        check_records(ctx, r, m, tag="engine-result-records")
+        if m.flattenable():
+            meas = r.measurements
+            for k in m.keys:
+                ctx.check(_arr_eq(meas.get(k), (m.reps, m.shapes[k][1]), m.rows(k)), "measurements==model",
+                          "C18:engine-result-measurements", "EngineResult.measurements[%r] != records[%r][:, 0, :]" % (k, k), key=k, **w)
+            if m.is_binary():
+                check_data(ctx, r.data, m, mech="C18:engine-result-data")
+            check_histograms(ctx, rng, r, m, arrays)
+        ctx.check(r.job_id == job and dict(r.params.param_dict) == dict(pr.param_dict), "engine-result-metadata", "C18:engine-result-metadata", "", **w)
+        same = cirq_google.EngineResult(job_id=job, params=pr, records={k: a.copy() for k, a in arrays.items()})
+        other = cirq_google.EngineResult(job_id=job + "x", params=pr, records=arrays)
+        ctx.check(r == same and not (r != same), "engine-result-eq", "C18:engine-result-eq-same", "equal records, params and job id compare unequal", **w)
+        ctx.check(r != other and not (r == other), "engine-result-eq", "C18:engine-result-eq-job-id", "a different job id compares equal", **w)
+        try:
+            back = cirq.read_json(json_text=cirq.to_json(r))
+        except Exception as e:  # noqa
+            ctx.check(False, "engine-result-json", "C18:engine-result-json-raises:" + type(e).__name__, str(e)[:200], **w)
+            back = None
+        if back is not None:
+            ctx.check(type(back) is cirq_google.EngineResult and back.job_id == job, "engine-result-json", "C18:engine-result-json-metadata", "", **w)
+            check_records(ctx, back, m, tag="engine-result-json-records")
+            ctx.check(back == r, "engine-result-json", "C18:engine-result-json-eq", "read_json(to_json(r)) != r", **w)
+        ctx.distinct(("engine-result", how, m.fingerprint()), nontrivial=_nontrivial(m)[0])
+        return
+    book = _Book()
+    if kind in ("processor-batch", "processor-single"):
+        proc = FakeProcessor(book)
+        J = 1 if kind == "processor-single" else int(rng.choice([2, 3, 4, 8]))
+        conc = int(rng.choice([1, 2, 100]))
+        names = dict(run_name="run", device_config_name="cfg") if rng.random() < 0.3 else {}
+        s = cirq_google.ProcessorSampler(processor=proc, max_concurrent_jobs=conc, jobs_per_batch=J, **names)
+        n = int(rng.integers(1, 8))
+        cids = [_gen_fake_circuit(rng, book) for _ in range(n)]
+        if n >= 2 and rng.random() < 0.3:
+            cids[-1] = cids[0]
+        shared = _gen_sweep(rng)
+        sweeps = [shared if rng.random() < 0.7 else _gen_sweep(rng) for _ in range(n)]
+        if rng.random() < 0.5:
+            reps_list = [int(rng.integers(1, 6))] * n
+            reps_arg = reps_list[0]
+        else:
+            reps_list = [int(x) for x in rng.choice([1, 2, 3], size=n)]
+            reps_arg = list(reps_list)
+        as_mapping = J > 1 and rng.random() < 0.35 and len(set(cids)) == n
+        programs = {"prog%d" % i: book.circuits[c] for i, c in enumerate(cids)} if as_mapping else [book.circuits[c] for c in cids]
+        entry = str(rng.choice(["run_batch", "run_batch_async", "run_sweep", "run"]))
+        w.update(J=J, n=n, circuits=cids, repetitions=reps_list, mapping=as_mapping, entry=entry, max_concurrent_jobs=conc,
+                 sweeps=[sw[2] for sw in sweeps])
+        if entry in ("run_sweep", "run"):
+            cid, sw = cids[0], sweeps[0]
+            if entry == "run":
+                pd = sw[1][0]
+                res = s.run(book.circuits[cid], dict(pd) or None, reps_list[0])
+                _match(ctx, res, fake_model(cid, book.specs[cid], _code_of(pd), pd, reps_list[0]), "C18:processor-sampler-run", "run", **w)
+                ctx.check(isinstance(res, cirq_google.EngineResult), "sampler-order+shape", "C18:processor-sampler-type", "", **w)
+            else:
+                out = s.run_sweep(book.circuits[cid], sw[0], reps_list[0])
+                ctx.check(len(out) == len(sw[1]), "sampler-order+shape", "C18:processor-sampler-count", "", **w)
+                for j, (res, pd) in enumerate(zip(out, sw[1])):
+                    _match(ctx, res, fake_model(cid, book.specs[cid], _code_of(pd), pd, reps_list[0]), "C18:processor-sampler-run_sweep-order",
+                           "run_sweep[%d]" % j, position=j, **w)
+            ctx.check(all(c["kw"] == dict(run_name=names.get("run_name", ""), snapshot_id="", device_config_name=names.get("device_config_name", ""))
+                          for c in proc.calls), "processor-call-args", "C18:processor-sampler-config-not-forwarded", "%r" % (proc.calls[:1],), **w)
+            ctx.distinct(("processor", entry, tuple(book.specs[cid]), sw[2], reps_list[0]), nontrivial=True)
+            return
+        args = (programs, [sw[0] for sw in sweeps])
+        if entry == "run_batch":
+            out = s.run_batch(*args, repetitions=reps_arg)
+        else:
+            out = duet.run(s.run_batch_async, args[0], args[1], reps_arg)
+        ctx.check(len(out) == n, "sampler-order+shape", "C18:processor-sampler-batch-count", "%d result lists for %d programs" % (len(out), n), **w)
+        for i in range(min(n, len(out))):
+            pds = sweeps[i][1]
+            ctx.check(len(out[i]) == len(pds), "sampler-order+shape", "C18:processor-sampler-batch-inner-count",
+                      "program %d: %d results for %d resolvers" % (i, len(out[i]), len(pds)), **w)
+            for j, (res, pd) in enumerate(zip(out[i], pds)):
+                _match(ctx, res, fake_model(cids[i], book.specs[cids[i]], _code_of(pd), pd, reps_list[i]),
+                       "C18:processor-sampler-batch-order", "run_batch[%d][%d]" % (i, j), position=[i, j], **w)
+        # what reached the processor: every program exactly once, in order, never more than J per call
+        sent = [c_ for call in proc.calls for c_ in call["cids"]]
+        ctx.check(sent == cids, "processor-call-args", "C18:processor-sampler-programs-sent", "programs sent %r, requested %r" % (sent, cids), **w)
+        ctx.check(all(len(call["cids"]) <= J for call in proc.calls), "processor-call-args", "C18:processor-sampler-batch-too-large",
+                  "%r" % [len(call["cids"]) for call in proc.calls], **w)
+        if as_mapping:
+            ks = [k for call in proc.calls for k in (call["keys"] or [None] * len(call["cids"]))]
+            ctx.check(ks == list(programs.keys()) or J == 1, "processor-call-args", "C18:processor-sampler-mapping-keys", "%r" % ks, **w)
+        if len(proc.calls) < n:
+            ctx.event("processor-batched-calls")
+        ctx.distinct(("processor-batch", J, tuple(cids), tuple(reps_list), tuple(sw[2] for sw in sweeps), as_mapping),
+                     nontrivial=n >= 2 and J >= 2)
+        return
+    # ValidatingSampler: validation sees the normalised arguments, results are the inner sampler's
+    SyncFake, AsyncFake = _S["fakes"]
+    inner = SyncFake(book)
+    seen = []
+
+    def validator(circuits, sweeps_, repetitions):
+        seen.append((list(circuits), list(sweeps_), repetitions))
+    n = int(rng.integers(1, 5))
+    cids = [_gen_fake_circuit(rng, book) for _ in range(n)]
+    sweeps = [_gen_sweep(rng) for _ in range(n)]
+    reps_list = [int(x) for x in rng.integers(1, 5, size=n)]
+    vs = cirq_google.ValidatingSampler(validator=validator, sampler=inner)
+    if rng.random() < 0.5:
+        out = vs.run_sweep(book.circuits[cids[0]], sweeps[0][0], reps_list[0])
+        ctx.check(len(seen) == 1 and seen[0][0] == [book.circuits[cids[0]]] and seen[0][2] == reps_list[0], "validator-called",
+                  "C18:validating-sampler-validator-args", "%r" % (seen,), **w)
+        for j, (res, pd) in enumerate(zip(out, sweeps[0][1])):
+            _match(ctx, res, fake_model(cids[0], book.specs[cids[0]], _code_of(pd), pd, reps_list[0]), "C18:validating-sampler-run_sweep", "run_sweep[%d]" % j, **w)
+        ctx.check(len(out) == len(sweeps[0][1]), "sampler-order+shape", "C18:validating-sampler-count", "", **w)
+    else:
+        uniform = rng.random() < 0.5
+        reps_arg = reps_list[0] if uniform else list(reps_list)
+        if uniform:
+            reps_list = [reps_list[0]] * n
+        out = vs.run_batch([book.circuits[c] for c in cids], [sw[0] for sw in sweeps], reps_arg)
+        ctx.check(len(seen) == 1 and len(seen[0][0]) == n and len(seen[0][1]) == n and list(seen[0][2]) == reps_list, "validator-called",
+                  "C18:validating-sampler-validator-args", "validator saw %r" % ([len(seen)] + [x[2] for x in seen],), **w)
+        ctx.check(len(out) == n, "sampler-order+shape", "C18:validating-sampler-count", "", **w)
+        for i in range(min(n, len(out))):
+            for j, (res, pd) in enumerate(zip(out[i], sweeps[i][1])):
+                _match(ctx, res, fake_model(cids[i], book.specs[cids[i]], _code_of(pd), pd, reps_list[i]), "C18:validating-sampler-run_batch",
+                       "run_batch[%d][%d]" % (i, j), **w)
+    # a refusing validator stops the run before the inner sampler is asked
+    before = len(book.log)
+
+    def refuse(circuits, sweeps_, repetitions):
+        raise ValueError("refused by the harness")
+    try:
+        cirq_google.ValidatingSampler(validator=refuse, sampler=inner).run_sweep(book.circuits[cids[0]], sweeps[0][0], 1)
+        ctx.check(False, "validator-called", "C18:validating-sampler-refusal-ignored", "", **w)
+    except ValueError as e:
+        ctx.check("refused by the harness" in str(e) and len(book.log) == before, "validator-called", "C18:validating-sampler-ran-before-validation", "", **w)
+    ctx.distinct(("validating", tuple(cids), tuple(reps_list), tuple(sw[2] for sw in sweeps)), nontrivial=True)
+
+
 # (name, function, quick cases, thorough cases, time weight).  One of 14 quick shards needs ~10 s of workload on
 # an idle machine (measured 18 s for twice these counts), which leaves room for a machine loaded 4x.
 SECTIONS = [
@@ -1627,4 +1892,5 @@ SECTIONS = [
     ("real_samplers", sec_real_samplers, 3000, 100000, 2.5),
     ("zeros_rejections", sec_zeros_rejections, 28, 64, 0.1),
     ("extras", sec_extras, 2000, 40000, 0.5),
+    ("engine", sec_engine, 1500, 40000, 1.5),
 ]
